@@ -25,6 +25,26 @@ def strategy_table(repo):
     return out
 
 
+def strategy_variants(repo, side='unpack'):
+    """(ClassInfo, FuncInfo, strategy, parked) for every function that can sit behind .unpack / .pack,
+    once per combination of method values that _compile parks in other attributes for it
+    (``parked``: canon('self.attr') -> the method value, ready to be a Walker.const_heap)"""
+    seen, out = set(), []
+    for name, (ci, strats) in strategy_table(repo).items():
+        for s in strats:
+            fi = s[side]
+            if fi is None or is_placeholder(fi):
+                continue
+            parked = {'self.%s' % a: v for a, v in s.get('defs', {}).items()
+                      if isinstance(v, ast.Attribute) and isinstance(v.value, ast.Name) and v.value.id == 'self' and repo.method(ci, v.attr) is not None}
+            key = (ci.name, fi.id, tuple(sorted((k, v.attr) for k, v in parked.items())))
+            if key in seen:
+                continue
+            seen.add(key)
+            out.append((ci, fi, s, parked))
+    return out
+
+
 def unpack_strategies(repo, include_noop=True):
     """unique (ClassInfo, FuncInfo) of every function that can sit behind .unpack"""
     seen, out = set(), []
